@@ -9,6 +9,7 @@ when blank filling is on, and the four decodings are compared with each other.
 import os
 
 from mc import domains as D
+from mc.props import envcheck
 from mc.engine import InputPart, Viol
 from mc.models import praatfmt
 from mc.props import c01
@@ -209,6 +210,11 @@ def parts(tier):
         InputPart("numbers", lambda: c01.layer_numbers(NUM), check,
                   rule="every ordered pair of the %d NUM values as entry times / spans (minimumIntervalLength=None)" % len(NUM),
                   bounds={"numbers": len(NUM)}, snippet=c01._snippet, chunk=8),
+        InputPart("default-encoding-environment", lambda: envcheck.env_cases(quick), envcheck.check_env,
+                  rule="the library run in a child process whose locale-dependent default text encoding is ASCII (LC_ALL=C, PYTHONUTF8=0, "
+                       "PYTHONCOERCECLOCALE=0) and in one where it is UTF-8: save x 4 formats x blank filling x non-ASCII text as interval label / point mark / "
+                       "tier name: the save succeeds, the bytes are UTF-8 and decode (independent decoder) to the in-memory content, the library reads them back",
+                  bounds={"environments": 2}, chunk=1),
         InputPart("size", lambda: c01.layer_size(not quick), check,
                   rule="the size axis (shared with C01): 9-25 (thorough 100) tiers; tiers of 10-400 (thorough 1000) entries; labels and names with 8-30 quote "
                        "characters, 255-9000 characters, 10-40 lines, thousands of non-ASCII characters: the written text is well-formed in every "
